@@ -41,6 +41,8 @@ class LogWork(Hooks):
         Returns:
             None
         """
+        super().post_step(step, level_number)
+
         L = step.levels[level_number]
         for key in self.__work_last_step[step.status.slot][level_number].keys():
             self.add_to_stats(
